@@ -84,7 +84,7 @@ impl Profile {
             max_ops: 60,
             w,
             tiny_everything: true,
-            blob_ingest: false,
+            blob_ingest: true,
             wild_weak_deletes: false,
             shared_blob_prelude: false,
             bulk_prelude: false,
@@ -623,8 +623,8 @@ pub fn gen_run(property: &str, seed: u64, p: &Profile) -> RunSpec {
         }
     }
     if cfg.blob.is_some() && !p.blob_ingest {
-        // ingestion into a key-value-separated tree is exercised by C08/C14 only, so that one
-        // known defect there (DESIGN 6) does not turn every other check red
+        // (profiles can keep bulk ingestion away from key-value-separated trees; this was used
+        // while DESIGN 6 item 9 was an open finding)
         weights[W_INGEST] = 0;
     }
     let n_ops = p.min_ops + r.usize(p.max_ops - p.min_ops + 1);
